@@ -293,7 +293,7 @@ class TTCFG(
                 info, new_state = self.derive(self.start_information(), state, P)
                 local = __compute__(new_state)
                 while info:
-                    base = info.pop()
+                    base = info.pop(0)
                     next_local: Dict[T, int] = defaultdict(int)
                     for v, cnt in local.items():
                         next_new_state = (base[0], (base[1], v))
